@@ -85,6 +85,25 @@ impl FOpts {
         FOpts { method, ..Default::default() }
     }
     pub fn to_zip(&self) -> FileOptions {
+        if SETTERS_TWICE.with(|m| m.get()) {
+            // every builder setter is called twice, first with some other value: the last call decides
+            let mut o = FileOptions::default()
+                .compression_method(method_of(if self.method == 0 { 8 } else { 0 }))
+                .compression_method(method_of(self.method))
+                .compression_level(Some(1))
+                .compression_level(self.level)
+                .last_modified_time(DateTime::from_msdos(0x2a21, 0x1234))
+                .last_modified_time(DateTime::from_msdos(self.date, self.time))
+                .large_file(!self.large)
+                .large_file(self.large);
+            if let Some(p) = self.perm {
+                o = o.unix_permissions(p ^ 0o707).unix_permissions(p);
+            }
+            if let Some(pw) = &self.password {
+                o = o.with_deprecated_encryption(b"an earlier choice").with_deprecated_encryption(pw);
+            }
+            return o;
+        }
         let mut o = FileOptions::default()
             .compression_method(method_of(self.method))
             .compression_level(self.level)
@@ -332,10 +351,8 @@ impl<S: Write + Seek> W<S> {
                 // returned count, as std's write_all_vectored does)
                 1 => self.run(
                     |z| {
+                        // (like write_all, no call at all for an empty buffer)
                         let mut rest: &[u8] = d;
-                        if rest.is_empty() {
-                            return z.write_vectored(&[std::io::IoSlice::new(&[]), std::io::IoSlice::new(&[])]).map(|_| ()).map_err(|e| e.to_string());
-                        }
                         while !rest.is_empty() {
                             let mid = rest.len() / 2;
                             let n = z.write_vectored(&[std::io::IoSlice::new(&rest[..mid]), std::io::IoSlice::new(&rest[mid..])]).map_err(|e| e.to_string())?;
@@ -441,6 +458,37 @@ thread_local! {
 thread_local! {
     /// how `Call::Write` hands its bytes to the writer: 0 = write_all, 1 = write_vectored (two slices per call)
     pub static WRITE_MODE: std::cell::Cell<u8> = const { std::cell::Cell::new(0) };
+}
+
+thread_local! {
+    /// when set, `FOpts::to_zip` calls every FileOptions setter twice (another value first)
+    pub static SETTERS_TWICE: std::cell::Cell<bool> = const { std::cell::Cell::new(false) };
+}
+/// Run `f` with every FileOptions setter called twice (first with another value): the results must not differ.
+pub fn with_setters_twice<T>(f: impl FnOnce() -> T) -> T {
+    SETTERS_TWICE.with(|m| m.set(true));
+    let r = f();
+    SETTERS_TWICE.with(|m| m.set(false));
+    r
+}
+
+/// Two archives that may differ in how the compressors were fed (another split of the same bytes can give another, equally
+/// valid, compressed stream): equal bytes, or equal in everything the reader reports (names, metadata, extra data, comments,
+/// contents) apart from compressed sizes, raw bytes and offsets.
+pub fn same_archive_modulo_compression(a: &[u8], b: &[u8]) -> bool {
+    if a == b {
+        return true;
+    }
+    match (observe(a, None, 1 << 22), observe(b, None, 1 << 22)) {
+        (Ok(x), Ok(y)) => {
+            x.comment == y.comment
+                && x.entries.len() == y.entries.len()
+                && x.entries.iter().zip(&y.entries).all(|(p, q)| {
+                    (&p.name, &p.name_raw, &p.comment, p.method, p.date, p.time, p.mode, p.size, p.crc, &p.extra, p.is_dir, &p.content) == (&q.name, &q.name_raw, &q.comment, q.method, q.date, q.time, q.mode, q.size, q.crc, &q.extra, q.is_dir, &q.content) && p.content.is_ok()
+                })
+        }
+        _ => false,
+    }
 }
 
 /// Run `f` with every `Call::Write` going through `Write::write_vectored`.
